@@ -1,0 +1,31 @@
+//go:build verif && linux
+
+package cgroup
+
+// Verification hooks (build tag verif).
+
+// VerifNewV2At returns a V2 handle on an arbitrary directory (e.g. a temp dir with crafted files).
+func VerifNewV2At(path string, ct *Controllers) *V2 { return &V2{path: path, control: ct} }
+
+// VerifV1Paths returns the controller directories of a v1 handle: all usable ones.
+func VerifV1Paths(c Cgroup) []string {
+	v1, ok := c.(*V1)
+	if !ok {
+		return nil
+	}
+	var out []string
+	for _, x := range v1.all {
+		out = append(out, x.path)
+	}
+	return out
+}
+
+// VerifV2Path returns the directory of a v2 handle.
+func VerifV2Path(c Cgroup) string {
+	if v2, ok := c.(*V2); ok {
+		return v2.path
+	}
+	return ""
+}
+
+const VerifBasePath = basePath
